@@ -45,7 +45,9 @@ Record world := {
   w_query_files : list gfile;
   w_op_errors : list (string * string);(* (rule class, message) under ALL specified_rules *)
   w_ops : list opinfo;                 (* operation definitions of the queries document, in order *)
-  w_fragments : bool                   (* some fragment definition ends up in the fragments module *)
+  w_fragments : bool;                  (* some fragment definition ends up in the fragments module *)
+  w_query_type : bool;                 (* schema.query_type is set (custom_queries.py exists) *)
+  w_mutation_type : bool               (* schema.mutation_type is set (custom_mutations.py exists) *)
 }.
 
 (* ---------- loading (schema.py) ---------- *)
@@ -117,13 +119,15 @@ Fixpoint add_operations (ops : list opinfo) (files : list string) : res (list st
       match op_name o with
       | None => Err (mkerr ParsingError "Query without name.")
       | Some n =>
-          match op_err o with
-          | Some x => Err x
-          | None =>
-              let f := module_name n ++ ".py" in
-              (* self._result_types_files[file_name] = ... : a dict, a repeated name overwrites *)
-              add_operations r (if existsb (String.eqb f) files then files else (files ++ [f])%list)
-          end
+          let f := module_name n ++ ".py" in
+          (* `if file_name in self._result_types_files: raise ParsingError` — before the result types
+             of the operation are generated, so before anything of it can fail or be written *)
+          if existsb (String.eqb f) files
+          then Err (mkerr ParsingError ("Duplicated file names: " ++ f))
+          else match op_err o with
+               | Some x => Err x
+               | None => add_operations r (files ++ [f])%list
+               end
       end
   end.
 
@@ -151,26 +155,31 @@ Fixpoint dups (seen l : list string) : list string :=       (* names seen before
       else dups (x :: seen) r
   end.
 
-Definition unique_check_names (e : env) (c : csettings) (results : list string) : list string :=
+Definition custom_files (c : csettings) (w : world) : list string :=
+  if s_custom_ops (c_base c)
+  then (["custom_typing_fields.py"; "custom_fields.py"]
+        ++ (if w_query_type w then ["custom_queries.py"] else [])
+        ++ (if w_mutation_type w then ["custom_mutations.py"] else []))%list
+  else [].
+
+Definition unique_check_names (e : env) (c : csettings) (w : world) (results : list string) : list string :=
   ([(c_client_file c ++ ".py")%string; basename (c_bc_path c); "base_model.py"; (c_enums c ++ ".py")%string;
    (c_inputs c ++ ".py")%string; (c_fragments c ++ ".py")%string]
-  ++ results ++ map basename (included_files e c))%list.
+  ++ results ++ map basename (included_files e c) ++ ["__init__.py"] ++ custom_files c w)%list.
 
 (* order of the writes in generate() *)
 Definition write_plan (e : env) (c : csettings) (w : world) (results : list string) : list string :=
   ([(c_inputs c ++ ".py")%string] ++ results
   ++ (if w_fragments w && negb (String.eqb (c_queries_path c) "") then [(c_fragments c ++ ".py")%string] else [])
   ++ map basename (included_files e c) ++ [basename (c_bc_path c); "base_model.py"]
-  ++ (if s_custom_ops (c_base c)
-      then ["custom_typing_fields.py"; "custom_fields.py"; "custom_queries.py"; "custom_mutations.py"]
-      else [])
+  ++ custom_files c w
   ++ [(c_client_file c ++ ".py")%string; (c_enums c ++ ".py")%string; "__init__.py"])%list.
 
 Definition pkg_dir (c : csettings) : string := c_pkg_path c ++ "/" ++ c_pkg_name c.
 
 Definition generate (e : env) (c : csettings) (w : world) (results : list string) (log : list effect)
   : list effect * outcome :=
-  if has_dup (unique_check_names e c results)
+  if has_dup (unique_check_names e c w results)
   then (log, Failed PhGenerate (mkerr ParsingError "Duplicated file names: "))
   else
     let d := pkg_dir c in
@@ -287,13 +296,14 @@ Definition dRule (e : sexp) : option (string * string) :=
   match e with L [A r; A m] => Some (r, m) | _ => None end.
 Definition dWorld (e : sexp) : option world :=
   match e with
-  | L [sf; sb; rem; se; pe; qf; oe; ops; fr] =>
+  | L [sf; sb; rem; se; pe; qf; oe; ops; L [fr; qt; mt]] =>
       match dList dGfile sf, dBuild sb, dErrO rem, dList dStr se, dOpt dStr pe, dList dGfile qf,
-            dList dRule oe, dList dOp ops, dB fr with
-      | Some sf', Some sb', Some rem', Some se', Some pe', Some qf', Some oe', Some ops', Some fr' =>
+            dList dRule oe, dList dOp ops, dAll dB [fr; qt; mt] with
+      | Some sf', Some sb', Some rem', Some se', Some pe', Some qf', Some oe', Some ops',
+        Some [fr'; qt'; mt'] =>
           Some {| w_schema_files := sf'; w_schema_build := sb'; w_remote := rem'; w_schema_errors := se';
                   w_plugin_err := pe'; w_query_files := qf'; w_op_errors := oe'; w_ops := ops';
-                  w_fragments := fr' |}
+                  w_fragments := fr'; w_query_type := qt'; w_mutation_type := mt' |}
       | _, _, _, _, _, _, _, _, _ => None
       end
   | _ => None
